@@ -173,6 +173,11 @@ package providers
 //@ ensures[request-error-means-no-session] called(Error#1) ==> ret1 == ret(Error#1) && ret0 == nil && ret(Error#0) != nil
 //@ ensures[error-means-no-session] ret1 != nil ==> ret0 == nil
 //@ ensures[session-only-from-an-error-free-200-answer] ret0 != nil ==> called(Do) && ret(Error#0) == nil && ret(StatusCode#0) == 200
+//@ prop C05
+//@ at call Add#5 assert[the-logins-pkce-verifier-goes-to-the-token-endpoint] arg(Add#5, 1) == "code_verifier" && arg(Add#5, 2) == codeVerifier
+//@     && codeVerifier != ""
+//@ ensures[a-verifier-is-always-sent-when-there-is-one] codeVerifier != "" && called(Do) ==> called(Add#5)
+//@ at call Add#3 assert[the-callbacks-code-is-redeemed] arg(Add#3, 1) == "code" && arg(Add#3, 2) == code
 
 // ------------------------------------------------------------------ C14: provider-specific lookups that judge the HTTP status themselves
 //@ func (*GitHubProvider).isCollaborator
@@ -277,6 +282,9 @@ package providers
 //@ ensures[valid-only-if-the-oidc-validation-succeeds] result ==> called(ValidateSession) && ret(ValidateSession)
 //@     && arg(ValidateSession, 0) == old(p.OIDCProvider) && arg(ValidateSession, 2) == session
 //@ ensures[unreadable-tenant-is-invalid] ret1(getTenantFromToken) != nil ==> !result
+//@ ensures[the-tokens-tenant-must-be-allowed-when-tenants-are-configured] result && len(old(p.multiTenantAllowedTenants)) > 0 ==>
+//@     called(checkTenantMatchesTenantList) && ret(checkTenantMatchesTenantList) && arg(checkTenantMatchesTenantList, 1) == ret0(getTenantFromToken)
+//@     && arg(checkTenantMatchesTenantList, 2) == old(p.multiTenantAllowedTenants) && arg(getTenantFromToken, 1) == session
 
 //@ func (*MicrosoftEntraIDProvider).Redeem
 //@ prop C04 C05 C14
